@@ -22,7 +22,8 @@ func init() {
 			"R7 matching and replacing never write into the compiled program (matchers, replacers, compilers, Meta): a capture is a pure function of the matched value, no cache. " +
 			"R8 every recorded site is rewritten; R9 what a metavariable captures is the code at the matched position — every matcher hands its sub-matchers projections (Elem / Field / Index / list elements) of its own candidate, never a rebuilt value (parentheses looked through, reflect.ValueOf of a part). " +
 			"NOT decided: that the instantiation is textually the '+' pattern (go/printer), position bookkeeping, which sites are chosen." +
-			" R11 a half-applied change is never emitted (a failed Change.Replace ends the file in the command and the library); R8 also: matches are replaced innermost first (F15).",
+			" R11 a half-applied change is never emitted (a failed Change.Replace ends the file in the command and the library); R8 also: matches are replaced innermost first (F15)." +
+			" R12 the text kept of a patch line is not a window into a buffered reader's buffer: the result of bufio.Scanner.Bytes / Reader.ReadSlice / ReadLine / Peek (and Bytes / Next of a bytes.Buffer that the same function rewinds) is only inspected, converted or copied — never stored in a field other than the reader's own current-line cache, a slice element, a map or a channel, nor returned to a caller that does so.",
 		Trusted:     commonTrusted,
 		Assumptions: commonAssumptions,
 	})
@@ -53,6 +54,9 @@ func runC03(r *an.Run) {
 	c06MatchedFlagAs(r, "R11-a-half-applied-change-is-never-emitted")
 	c09APIFailure(r)
 	relabel(r, "R4-failure-leaves-file-untouched", "R11-a-half-applied-change-is-never-emitted")
+	// the '+' lines that reach the parser are the bytes of the patch: the text kept per line is not a
+	// window into a reader's buffer that later reads overwrite
+	noTransientBufferRetained(r, "R12-kept-text-is-not-a-window-into-a-read-buffer")
 }
 
 func c03Siblings(r *an.Run) {
@@ -589,13 +593,22 @@ func compiledProgramReadOnly(r *an.Run, rule string) {
 		if an.FuncPkgPath(f) != enginePath {
 			continue
 		}
-		for _, in := range an.StoresIn(f) {
+		sites := an.StoresIn(f)
+		for _, c := range an.Calls(f) {
+			if atomicWriteTarget(c) != nil {
+				sites = append(sites, c)
+			}
+		}
+		for _, in := range sites {
 			var addr ssa.Value
 			switch x := in.(type) {
 			case *ssa.Store:
 				addr = x.Addr
 			case *ssa.MapUpdate:
 				addr = x.Map
+			case ssa.CallInstruction:
+				// c.failed.Store(true), atomic.AddInt64(&m.hits, 1), m.once.Do(f), m.cache.Store(k, v): writes all the same
+				addr = atomicWriteTarget(x)
 			}
 			nStores++
 			root := an.Root(addr)
@@ -911,4 +924,35 @@ func compiledTypeClosure(r *an.Run) map[*types.TypeName]bool {
 		}
 	}
 	return out
+}
+
+// atomicWriteTarget: c is a write performed by package sync or sync/atomic —
+// a Store/Swap/Add/CompareAndSwap/And/Or method of an atomic type, one of the
+// package-level atomic functions of those names, sync.Once.Do, or a mutating
+// method of sync.Map — and the result is the address written. Taking and
+// releasing a lock is not such a write.
+func atomicWriteTarget(c ssa.CallInstruction) ssa.Value {
+	callee := c.Common().StaticCallee()
+	if callee == nil || callee.Pkg == nil || len(c.Common().Args) == 0 {
+		return nil
+	}
+	pkg := callee.Pkg.Pkg.Path()
+	if pkg != "sync" && pkg != "sync/atomic" {
+		return nil
+	}
+	name := callee.Name()
+	mutates := false
+	for _, pre := range []string{"Store", "Swap", "Add", "CompareAndSwap", "And", "Or", "Do", "LoadOrStore", "LoadAndDelete", "Delete", "CompareAndDelete", "Clear", "Put"} {
+		if strings.HasPrefix(name, pre) {
+			mutates = true
+		}
+	}
+	if !mutates {
+		return nil
+	}
+	a := c.Common().Args[0]
+	if _, isPtr := a.Type().Underlying().(*types.Pointer); !isPtr {
+		return nil
+	}
+	return a
 }
